@@ -393,6 +393,27 @@ let run_path kind toks =
     path_result id (Base.Ok (PathOps.path_transform t p))
   | _ -> failwith ("path kind " ^ kind)
 
+
+(* fmt <id> W H n <n pixels> k v a r g b : word/byte views, from_vec, PNG pixel mapping, colour conversions *)
+let run_fmt toks =
+  let c = { toks = Array.of_list toks; i = 0 } in
+  let id = next c in
+  let w = nz c in let h = nz c in
+  let n = nint c in
+  let px = ntimes n (fun () -> nhex c) in
+  let k = nz c in let v = nz c in
+  let a = nz c in let r = nz c in let g = nz c in let b = nz c in
+  let buf = PixelFormat.from_vec w h px in
+  let bytes = PixelFormat.byte_view buf in
+  let nb = Stdlib.List.length bytes in
+  let buf2 = if nb = 0 then buf else PixelFormat.set_byte buf (z_of_int (int_of_z k mod nb)) v in
+  let ints l = String.concat " " (Stdlib.List.map (fun z -> string_of_int (int_of_z z)) l) in
+  let hexs l = String.concat " " (Stdlib.List.map hex l) in
+  let (((fa, fr), fg), fb) = PixelFormat.from_unpremultiplied_argb a r g b in
+  Printf.printf "%s ok W %s B %s M %s P %d %d %s U %s F %d %d %d %d\n" id (hexs buf) (ints bytes) (hexs buf2)
+    (int_of_z w) (int_of_z h) (ints (PixelFormat.png_bytes buf)) (hex (PixelFormat.to_u32 a r g b))
+    (int_of_z fa) (int_of_z fr) (int_of_z fg) (int_of_z fb)
+
 let () =
   try
     while true do
@@ -403,6 +424,7 @@ let () =
       | "surf" :: rest -> run_surface rest
       | "surfspec" :: rest -> run_surface_spec rest
       | "scene" :: rest -> run_scene rest
+      | "fmt" :: rest -> run_fmt rest
       | "specscene" :: rest -> run_specscene rest
       | ("pcontains" | "pflatten" | "pdash" | "pstroke" | "prect" | "ptransform" | "pcontz" as k) :: rest -> run_path k rest
       | t :: _ -> failwith ("unknown case kind " ^ t)
